@@ -84,6 +84,9 @@ pub fn make(p: Params) -> ScenarioFn {
         async move {
             let mut out = Outcome::default();
             let t0 = tokio::time::Instant::now();
+            // a request that finds its session already dead falls back to dialling a new connection: there is no
+            // network here, the dial is refused (H12 seam; the runtime has no I/O driver)
+            let _ = anytls_rs::verif::install_dialer(Some(std::rc::Rc::new(|_addr: &str| Some(Err(std::io::Error::new(std::io::ErrorKind::ConnectionRefused, "no network in this scenario"))))));
             let mut link = peer_link(PipeCfg::new("s2c"), PipeCfg::new("c2s"));
             let inj = link.peer.inj.clone();
             let sess = match start_client_session(link.sess_r, link.sess_w, padding(STOP0), None, 1).await {
